@@ -212,6 +212,8 @@ class Program:
             try:
                 from .inline import inline_new_helpers, known_names
                 from .canon import unrename, canonicalise, unrename_locals
+                from .canon import unroll_class_body_tables
+                self.normalisation["class_body_tables_unrolled"] = unroll_class_body_tables(self)
                 from .canon import push_down_new_mixins
                 self.normalisation["mixins_pushed_down"] = push_down_new_mixins(self, known_names())
                 from .canon import methodise
@@ -244,6 +246,15 @@ class Program:
                     for m_ in self.modules.values():
                         ast.fix_missing_locations(m_.tree)
                     self.normalisation["canonicalised"] += canonicalise(self)
+                    # writing a local out can make further locals / reassignments foldable: iterate to a fixed point (bounded)
+                    for _ in range(3):
+                        more = inline_new_locals(self)
+                        if not more:
+                            break
+                        self.normalisation["new_locals_inlined"] = list(self.normalisation["new_locals_inlined"]) + list(more)
+                        for m_ in self.modules.values():
+                            ast.fix_missing_locations(m_.tree)
+                        self.normalisation["canonicalised"] += canonicalise(self)
             except RecursionError:
                 self.inlining = {"enabled": False, "error": "recursion"}
 
